@@ -1232,3 +1232,337 @@ def c13():
 
 
 CHECKS["C13"] = c13
+
+
+# =========================================================================== C15
+SIGNED_TYPES = ["int32", "int64", "float32", "float64", "bool", "string"]
+
+
+def decorate_signed(forest, toff):
+    from vlib import decorate
+    d = decorate(forest, 0)
+    cnt = [0]
+
+    def w(n):
+        if n["typ"] != "group":
+            n["typ"] = SIGNED_TYPES[(cnt[0] + toff) % 6]
+            cnt[0] += 1
+        for k in n["kids"]:
+            w(k)
+    for n in d:
+        w(n)
+    return d
+
+
+def has_rep(forest):
+    return any(n["rep"] == "rep" or has_rep(n.get("kids") or []) for n in forest)
+
+
+def written_rows_ok(p, ci):
+    """did the original program read back exactly what it wrote in case ci (otherwise it is a C05 matter)"""
+    from wfam import split_cases
+    for cid, evs in split_cases(p.events):
+        if cid.endswith(":%d" % ci):
+            adds = [e["rec"] for e in evs if e["ev"] == "Add"]
+            rows = [e for e in evs if e["ev"] == "Rows"]
+            rd = [e for e in evs if e["ev"] == "Read"]
+            closed = [e for e in evs if e["ev"] == "Close" and e["res"] == "ok" and e.get("footer", {}).get("ok") and e["footer"].get("treeok")]
+            if rd and rows and not rd[0]["panic"] and rd[0]["open"] == "ok" and not rd[0]["haserr"] and rows[rd[0]["rowsid"] - 1]["rows"] == adds and closed:
+                return adds
+    return None
+
+
+def c15():
+    from vlib import Check as _C, farm, render, run_driver, shape_key, WORK, judge
+    from wfam import Program
+    import concurrent.futures as cf
+    ck = Check("C15", "translation_validation")
+    q = ck.quick()
+    forests = [f for f in export_shapes(4 if q else 5) if not has_rep(f)]
+    if q:
+        forests = ck.rng.sample(forests, 40)
+    progs = []
+    for i, f in enumerate(forests):
+        d = decorate_signed(f, stable_toff(f))
+        progs.append(Program(shape_key(d), render(d), d))
+    # plus a nested fixed example with tags and an embedded struct
+    progs.append(Program("fixed:Nested", "package main\n\ntype L3 struct {\n\tV int64 `parquet:\"v\"`\n\tW *string\n}\n\ntype L2 struct {\n\tK  int32\n\tIn *L3 `parquet:\"in\"`\n\tOn bool\n}\n\ntype Flat struct {\n\tX float64\n\tY *float32\n}\n\n"
+                         "type Rec struct {\n\tID  int64 `parquet:\"id\"`\n\tOpt *L2\n\tReq Flat\n\tS   string\n}\n"))
+    build_programs(progs)
+    ok = usable(progs)
+    load_schemas(ok)
+    recs = export_records([(p.key, p.schema) for p in ok], 2, 30 if q else 100, ck.seed)
+    fdir = os.path.join(WORK, "c15files")
+    os.makedirs(fdir, exist_ok=True)
+    for i, p in enumerate(ok):
+        rr = recs[p.key]["recs"]
+        p.file = os.path.join(fdir, "f%d.parquet" % i)
+        p.cases = [{"page": 3, "codec": CODECS[i % 3], "poff": (i + ck.seed) % 16, "ops": ops_of("a" * len(rr) + "w", rr), "reads": [{"mode": "plain"}],
+                    "keepfile": p.file, "light": True}]
+    run_programs(ok, "c15w")
+    fm = farm()
+    pseudo = []
+    skipped = 0
+
+    def regen(p):
+        rows = written_rows_ok(p, 0)
+        if rows is None:
+            return None
+        rb = fm.build_regen(p.key, p.file)
+        q2 = Program("regen:" + p.key, rb.get("struct", ""), None)
+        q2.build = dict(rb)
+        q2.orig = p
+        if rb["status"] == "ok":
+            case = {"id": "X", "page": 3, "codec": "snappy", "poff": p.cases[0]["poff"], "ops": [], "readfile": p.file, "expect": rows}
+            q2.cases = [case]
+        else:
+            q2.cases = [{"id": "X", "failed": rb["status"]}]
+        return q2
+
+    with cf.ThreadPoolExecutor(max_workers=16) as ex:
+        for q2 in ex.map(regen, ok):
+            if q2 is None:
+                skipped += 1
+            else:
+                pseudo.append(q2)
+    ck.cov["programs"] = len(pseudo)
+    ck.cov["skipped_original_program_broken_see_C05"] = skipped + len(progs) - len(ok)
+    good = [x for x in pseudo if x.build["status"] == "ok"]
+    run_programs(good, "c15r")
+    # add the Regen event (original vs regenerated effective schema) to every trace
+    for idx, x in enumerate(pseudo):
+        if x.build["status"] == "ok":
+            evs = []
+            for e in x.events:
+                evs.append(e)
+                if e.get("ev") == "Reset":
+                    evs.append({"ev": "Regen", "status": "ok", "orig": x.orig.schema, "regen": e["schema"]})
+            x.events = evs
+        else:
+            x.build = dict(x.build, status="ok")  # so that judge_programs looks at the synthetic trace
+            x.events = [{"ev": "Reset", "case": "%d:0" % idx, "schema": x.orig.schema, "cols": x.orig.cols, "max": 1, "codec": "snappy", "codecn": 1, "poff": 0},
+                        {"ev": "Regen", "status": x.cases[0]["failed"], "orig": x.orig.schema, "regen": []}]
+    # case ids must be '<index in pseudo>:0'
+    for idx, x in enumerate(pseudo):
+        for e in x.events:
+            if e.get("ev") == "Reset":
+                e["case"] = "%d:0" % idx
+    ck.cov["disagreements_checked"] = 0
+    ck.cov["rule"] = ("program = a schema without repeated nodes (signed/float/bool/string leaves, required and optional, nested groups) from the bounded grammar; "
+                      "its generated writer writes TLC-exported records, `parquetgen -parquet` regenerates struct + reader from the file, the regenerated "
+                      "package is compiled and reads the file; TLC compares the regenerated struct's effective schema with Dremel!Regen(original) and the rows")
+    ck.cov["exhaustive"] = not q
+    ck.sample({"original": pseudo[0].orig.src, "regenerated": pseudo[0].src})
+    before = len(ck.violations) + len(ck.known_hit)
+    judge_programs(ck, pseudo, ["C15", "HARNESS"], "c15", describe=lambda p, c: p.key, confirm=False)
+    ck.cov["disagreements_checked"] = len(ck.violations) + len(ck.known_hit) - before
+    ck.assumptions += ["names are compared through the parquet tags the regenerated struct carries; Go identifiers differ by strings.Title",
+                       "original programs that do not round-trip their own file are C05's subject and are skipped"]
+    ck.finish()
+
+
+CHECKS["C15"] = c15
+
+
+# =========================================================================== C14
+EXCL_TYPES = ["int", "*int64", "[]string", "map[string]int", "chan int", "func(Arg int32) error", "struct{ Inner int32 }", "interface{}", "int32",
+              "Other", "*Other", "[]Other", "[4]byte", "*struct{ A, B string }", "func() Other", "[]*Other"]
+OTHER_SRC = "type Other struct {\n\tZ int64\n\tW *string\n\tq []int32\n}\n"
+
+
+def render_deco(forest):
+    """Go source of a forest that may contain decoration nodes:
+       {"excl": True, "gofield": "<name> <type> [`tag`]"}  and  {"emb": True, "kids": [...]}"""
+    types = []
+    cnt = [0, 0]
+
+    def fields(kids):
+        out = []
+        for k in kids:
+            if k.get("excl"):
+                out.append("\t" + k["gofield"])
+                continue
+            if k.get("emb"):
+                cnt[1] += 1
+                tn = "E%d" % cnt[1]
+                types.append("type %s struct {\n%s\n}\n" % (tn, fields(k["kids"])))
+                out.append("\t" + tn)
+                continue
+            pre = {"req": "", "opt": "*", "rep": "[]"}[k["rep"]]
+            if k["typ"] == "group":
+                cnt[0] += 1
+                tn = "T%d" % cnt[0]
+                types.append("type %s struct {\n%s\n}\n" % (tn, fields(k["kids"])))
+                out.append("\t%s %s%s" % (k["name"], pre, tn))
+            else:
+                out.append("\t%s %s%s" % (k["name"], pre, k["typ"]))
+        return "\n".join(out)
+
+    body = fields(forest)
+    return "package main\n\n" + OTHER_SRC + "".join(types) + "\ntype Rec struct {\n%s\n}\n" % body
+
+
+def at_path(forest, path):
+    kids = forest
+    for i in path:
+        kids = kids[i - 1]["kids"]
+    return kids
+
+
+def c14():
+    import copy
+    import hashlib
+    from vlib import shape_key, WORK, decorate
+    from wfam import Program, _export, split_cases
+    ck = Check("C14", "translation_validation")
+    q = ck.quick()
+    r = model_check("MC_Deco", {"MaxNodes": 3 if q else 4, "ForgetHoist": "FALSE"}, ["ErasedIsBase", "SameColumns"], workers=8, tag="mcdeco")
+    ck.cov["spec_states"] = r["distinct"]
+    model_check("MC_Deco", {"MaxNodes": 3, "ForgetHoist": "TRUE"}, ["ErasedIsBase"], tag="mcdeconeg", expect_violation="ErasedIsBase")
+    ck.cov["negative_controls"] = ["MC_Deco with an Erase that forgets to hoist embedded fields: ErasedIsBase violated as required"]
+    # base programs: schemas of the bounded grammar that are fine on their own
+    forests = export_shapes(3 if q else 4)
+    cand = [decorate(f, stable_toff(f)) for f in forests]
+    bases = [Program(shape_key(d), render_deco(d), d) for d in cand]
+    build_programs(bases)
+    bases = usable(bases)
+    load_schemas(bases)
+    recs = export_records([(p.key, p.schema) for p in bases], 2, 8, ck.seed)
+    fdir = os.path.join(WORK, "c14files")
+    os.makedirs(fdir, exist_ok=True)
+
+    def cases_for(p, tag):
+        rr = recs[p.basekey]["recs"] if hasattr(p, "basekey") else recs[p.key]["recs"]
+        out = []
+        for li, (page, hist) in enumerate(((1000, "a" * len(rr) + "w"), (2, "a" * max(1, len(rr) - 1) + "w" + "aw"))):
+            out.append({"page": page, "codec": CODECS[(li + 1) % 3], "poff": 3, "ops": ops_of(hist, rec_cycle(rr, 0)), "reads": [{"mode": "plain"}],
+                        "keepfile": os.path.join(fdir, "%s_%d.parquet" % (tag, li)), "light": True})
+        return out
+
+    for i, p in enumerate(bases):
+        p.cases = cases_for(p, "b%d" % i)
+    run_programs(bases, "c14b")
+    good = []
+    for p in bases:
+        if all(written_rows_ok(p, ci) is not None for ci in range(len(p.cases))):
+            good.append(p)
+    ck.cov["base_programs"] = len(good)
+    ck.cov["base_programs_skipped_broken_see_C05"] = len(forests) - len(good)
+    if q:
+        good = ck.rng.sample(good, min(len(good), 45))
+    # decoration sites from TLC
+    rows = _export("ExportDeco", {"SchemaFile": '"schemas.ndjson"', "OutFile": '"deco.ndjson"'}, "deco.ndjson", tag="deco",
+                   files={"schemas.ndjson": "".join(json.dumps({"id": p.key, "schema": [strip(n) for n in p.forest]}) + "\n" for p in good)})
+    sites = {r["id"]: r for r in rows}
+    decos = []
+    import zlib
+    for bi, p in enumerate(good):
+        s = sites[p.key]
+        excl = sorted(s["excl"])
+        emb = sorted(s["embed"])
+        if q:
+            excl = ck.rng.sample(excl, min(len(excl), 4))
+            emb = ck.rng.sample(emb, min(len(emb), 2))
+        for (path, pos) in excl:
+            f = copy.deepcopy(p.forest)
+            kids = at_path(f, path)
+            # the decoration applied at a site is a fixed function of (base, site): keys are stable across tiers and seeds
+            h = zlib.crc32(("%s|%s|%d" % (p.key, path, pos)).encode())
+            t = EXCL_TYPES[h % len(EXCL_TYPES)]
+            style = (h // 16) % 4
+            n = h % 1000
+            if style == 0:
+                gf = "hidden%d %s" % (n, t)
+            elif style == 1:
+                gf = "Skip%d %s `parquet:\"-\"`" % (n, t)
+            elif style == 2:
+                gf = "_pad%d %s" % (n, t)
+            else:
+                gf = "ähm%d %s `json:\"x\"`" % (n, t)
+            kids.insert(pos, {"excl": True, "gofield": gf})
+            decos.append((p, f, "excl %s at %s/%d" % (gf, path, pos)))
+        for (path, start, ln) in emb:
+            f = copy.deepcopy(p.forest)
+            kids = at_path(f, path)
+            run = kids[start - 1:start - 1 + ln]
+            kids[start - 1:start - 1 + ln] = [{"emb": True, "kids": run}]
+            decos.append((p, f, "embed fields %d..%d of %s" % (start, start + ln - 1, path or "Rec")))
+    dprogs = []
+    for di, (p, f, what) in enumerate(decos):
+        d = Program("%s || %s" % (p.key, what), render_deco(f), f)
+        d.basekey, d.base, d.what = p.key, p, what
+        dprogs.append(d)
+    build_programs(dprogs)
+    built = usable(dprogs)
+    for i, d in enumerate(built):
+        d.cases = cases_for(d, "d%d" % i)
+    run_programs(built, "c14d")
+    ck.cov["programs"] = len(dprogs)
+    # assemble one trace per decorated program: its own events plus a Pair event per case
+    pseudo = []
+    for idx, d in enumerate(dprogs):
+        if d.build["status"] != "ok":
+            d.events = [{"ev": "Reset", "case": "X", "schema": d.base.schema, "cols": d.base.cols, "max": 1, "codec": "snappy", "codecn": 1, "poff": 0},
+                        {"ev": "Pair", "status": d.build["status"], "same": False, "baseschema": d.base.schema, "decoschema": []}]
+            d.detail = d.build["detail"]
+            d.build = dict(d.build, status="ok")
+            d.cases = [{"failed": True}]
+        else:
+            evs = []
+            ci = -1
+            for e in d.events:
+                if e.get("ev") == "Reset":
+                    if ci >= 0:
+                        evs.append(pair_event(d, ci))
+                    ci += 1
+                evs.append(e)
+            if ci >= 0:
+                evs.append(pair_event(d, ci))
+            d.events = evs
+        pseudo.append(d)
+    for idx, d in enumerate(pseudo):
+        k = 0
+        for e in d.events:
+            if e.get("ev") == "Reset":
+                e["case"] = "%d:%d" % (idx, k)
+                k += 1
+    ck.cov["rule"] = ("pairs (plain program, decorated program): base = schemas of the bounded grammar that work on their own; decorations from TLC (ExportDeco): an "
+                      "excluded field (unexported incl. _names and non-ASCII lower-case names, or tagged parquet:\"-\") of %d Go types at every position of every "
+                      "struct, and every run of fields replaced by an embedded struct; both programs write the same TLC-exported records in two layouts; TLC "
+                      "judges byte-identical files, unchanged effective schema, excluded fields zero after Scan" % len(EXCL_TYPES))
+    ck.cov["exhaustive"] = not q
+    ck.sample({"base": good[0].src, "decorated": dprogs[0].src, "decoration": dprogs[0].what})
+    before = len(ck.violations) + len(ck.known_hit)
+    judge_programs(ck, pseudo, ["C14", "HARNESS"], "c14", describe=lambda p, c: p.key, confirm=False, max_report=100000)
+    ck.cov["disagreements_checked"] = len(ck.violations) + len(ck.known_hit) - before
+    ck.assumptions += ["'unexported' follows the Go definition; embedded means embedding a struct value",
+                       "excluded exported fields are given non-zero values before Add where reflection allows it"]
+    ck.finish()
+
+
+def strip(n):
+    return {"rep": n["rep"], "kids": [strip(k) for k in n["kids"]]}
+
+
+def pair_event(d, ci):
+    bf = d.base.cases[ci]["keepfile"]
+    df = d.cases[ci]["keepfile"]
+    try:
+        a, b = open(bf, "rb").read(), open(df, "rb").read()
+        same = a == b and len(a) > 0
+    except OSError:
+        same = False
+    return {"ev": "Pair", "status": "ok", "same": same, "baseschema": d.base.schema, "decoschema": d.schema_seen if hasattr(d, "schema_seen") else schema_from_events(d, ci)}
+
+
+def schema_from_events(d, ci):
+    k = -1
+    for e in d.events:
+        if e.get("ev") == "Reset":
+            k += 1
+            if k == ci:
+                return e["schema"]
+    return []
+
+
+CHECKS["C14"] = c14
